@@ -328,7 +328,8 @@ class Interp:
             if '/ttsa/' in fname and not fname.endswith('interp.py'):
                 import traceback
                 return AnalysisError(f'internal error in the abstract domain ({type(e).__name__}: {e}) at {fname}:{last.tb_lineno} while analysing {self.where()}')
-        if isinstance(e, TypeError) and 'unsupported operand type' in str(e) and any(n_ in str(e) for n_ in ('IntVec', 'Arr', 'Size', 'SymIdx', 'SymOff', 'Instance', 'UnknownBool', 'NpIntSize', 'SymArray')):
+        if isinstance(e, TypeError) and any(f"'{n_}'" in str(e) for n_ in ('IntVec', 'Arr', 'Size', 'SymIdx', 'SymOff', 'Instance', 'UnknownBool', 'NpIntSize', 'SymArray', 'SymRange',
+                                                                           'SymList', 'Poly1d', 'BasisFn', 'NpObject', 'Val', 'Fn')):
             # Python could not combine an abstract value of the analysis with its operand: an operation the domain has no transfer function for
             return AnalysisError(f'an operation on abstract values has no model ({e}) at {self.where()}')
         r = Raised(type(e).__name__, str(e), node or self.cur_node(), self.cur_fn())
@@ -477,6 +478,13 @@ class Interp:
                 for p in parts[k:]:
                     o = getattr(o, p)
                 return o
+        # pure helpers of the standard library that only call back into the values they are given (operator.mul, functools.reduce, itertools.product, ...)
+        if parts[0] in ('operator', 'functools', 'itertools', 'collections'):
+            import importlib
+            o = importlib.import_module(parts[0])
+            for p in parts[1:]:
+                o = getattr(o, p)
+            return o
         raise AnalysisError(f'import {target} (as {name}) in module {mod.name} has no model in this domain')
 
     def lookup(self, name, node=None):
